@@ -341,6 +341,8 @@ def end_to_end(cfg):
             prog.save(buf)
             so = ort.SessionOptions()
             so.log_severity_level = 4
+            so.intra_op_num_threads = 1
+            so.inter_op_num_threads = 1
             sess = ort.InferenceSession(buf.getvalue(), so, providers=["CPUExecutionProvider"])
             got = sess.run(None, {i.name: a.numpy() for i, a in zip(sess.get_inputs(), args)})[0]
             want = m(*args).numpy()
